@@ -12,7 +12,7 @@
     [slurm_mon_ok] / [lsf_mon_ok] / [flux_mon_ok]) are what harness/props/c16.py
     evaluates, inside Coq, on the answers of the IMPLEMENTATION. *)
 From MWF Require Import Base.Str Gen.SchedTables Sched.Manuals Sched.Parse Sched.ParseProofs
-     Sched.ParseDict Sched.ParseSlurm Sched.ParseLsf Sched.ParseC16.
+     Sched.ParseDict Sched.ParseSlurm Sched.ParseLsf Sched.ParseC16 Sched.ParseEngine.
 
 (* ======================================================================== *)
 (** * State tables *)
@@ -237,6 +237,62 @@ Theorem C16_monitors_as_run :
   (forall ver code, flux_mon_ok (ver, code, flux_state code) = true).
 Proof. exact (conj slurm_mon_model (conj lsf_mon_model flux_mon_model)). Qed.
 Print Assumptions C16_monitors_as_run.
+
+(* ======================================================================== *)
+(** * The engine's layer: ExecutionGraph.check_study_status
+
+    [jm] maps the queried job ids (last job id of every in-progress step) to
+    step names; [step_table jm st] is the code's
+    [{jobmap[jobid]: status for jobid, status in job_status.items()}] applied to
+    the adapter's table [st] (None = KeyError).  [jobmap_inj]: no two jobs
+    belong to the same step. *)
+
+(** a step whose job the adapter's table does not mention -- no key at all, or
+    None -- comes back WITHOUT a state (absent or None), never as a state *)
+Theorem C16_engine_absent : forall jm st tbl j step,
+  jobmap_inj jm -> step_table jm st = Some tbl -> assoc_step jm j = Some step ->
+  (get st j = None \/ get st j = Some None) ->
+  get tbl step = None \/ get tbl step = Some None.
+Proof. exact engine_absent. Qed.
+Print Assumptions C16_engine_absent.
+
+(** a step whose job the table holds a state for comes back with exactly that state *)
+Theorem C16_engine_present : forall jm st tbl j step x,
+  jobmap_inj jm -> step_table jm st = Some tbl -> assoc_step jm j = Some step ->
+  get st j = Some (Some x) -> get tbl step = Some (Some x).
+Proof. exact engine_present. Qed.
+Print Assumptions C16_engine_present.
+
+(** composed with Slurm's check_jobs: a queried job without a row in what
+    squeue / sacct printed leaves its step with None *)
+Theorem C16_engine_slurm_absent : forall jm sq sq_rc sa sa_rc code st tbl j step,
+  jobmap_inj jm -> wf_joblist (map fst jm) = true -> wf_squeue sq = true -> wf_sacct sa = true ->
+  slurm_check_jobs (map fst jm) (print_squeue sq) sq_rc (print_sacct sa) sa_rc = Ret code st ->
+  step_table jm st = Some tbl -> assoc_step jm j = Some step ->
+  last_state (slurm_seen (map fst jm) sq sq_rc sa sa_rc) j = None ->
+  get tbl step = Some None.
+Proof. exact engine_slurm_absent. Qed.
+Print Assumptions C16_engine_slurm_absent.
+
+(** the monitor of the engine layer ([C16_ok_engine], through [engine_mon_ok] what
+    harness/props/c16_engine.py evaluates on what the REAL check_study_status
+    returned) holds of the model; [wf_jobmap] (distinct ids, distinct steps)
+    gives [jobmap_inj] *)
+Theorem C16_monitor_engine :
+  (forall jm code st tbl, jobmap_inj jm -> step_table jm st = Some tbl ->
+     C16_ok_engine jm code st (Ret code tbl) = true) /\
+  (forall jm, wf_jobmap jm = true -> jobmap_inj jm) /\
+  (forall jm code st, engine_mon_ok (jm, (code, st), engine_run jm code st) = true).
+Proof. exact (conj engine_monitor (conj wf_jobmap_inj engine_mon_model)). Qed.
+Print Assumptions C16_monitor_engine.
+
+Example C16_example_engine :
+  wf_jobmap ex_jobmap = true /\
+  engine_run ex_jobmap JS_OK [kv (s "12") CANCELLED; kv (s "123") FINISHING; kn (s "9")]
+  = Ret JS_OK [kv (s "sim") CANCELLED; kv (s "post") FINISHING; kn (s "late")] /\
+  engine_run ex_jobmap JS_OK [kv (s "123") FINISHING]
+  = Ret JS_OK [kv (s "post") FINISHING].
+Proof. exact ex_engine. Qed.
 
 (* ======================================================================== *)
 (** * Non-vacuity: the hypotheses are satisfiable -- ids that are prefixes of
